@@ -664,6 +664,26 @@ def r7(rr, repo):
                 extra.append(('' if pol else 'not ') + txt)
             rr.ob(f'{fnname}: the out-of-band message is handed to the callback whenever one arrives (no condition on the peer: registered, connected, has requested ...)', not extra, zmod, c,
                   witness=' && '.join(extra)[:200] or 'only message-kind tests', key=f'oob-unconditional|{fnname}')
+    # the announcing side: send_oob writes the envelope with the out-of-band id to every socket of the endpoint, under no condition on the peer
+    for cls, coll, sendname in (('ZMQSender', 'self.pubs', 'send_multipart'), ('ZMQReceiver', 'self.senders.values()', 'send_push')):
+        _, so = repo.find(f'{Z}::{cls}.send_oob')
+        sends = [c for c in q.calls_in(so) if isinstance(c.func, ast.Attribute) and c.func.attr == sendname]
+        rr.floor(f'out-of-band sends in {cls}.send_oob', len(sends), 1, zmod, so)
+        for c in sends:
+            loops = [a for a in ancestors_incl(c) if isinstance(a, ast.For)]
+            over_all = len(loops) == 1 and U(loops[0].iter) == coll and isinstance(loops[0].target, ast.Name) and U(c.func.value) == loops[0].target.id and not loops[0].orelse
+            g = [('' if pol else 'not ') + U(t) for t, pol in q.guards_of(c, stop=so)]
+            early = [n for n in walk_scope(so) if isinstance(n, (ast.Return, ast.Raise, ast.Break, ast.Continue))]
+            rr.ob(f'{cls}.send_oob: the announcement is written to every socket of the endpoint ({coll}), under no condition on the peer and with no early way out', over_all and not g and not early, zmod, c,
+                  witness=(f'loop over {U(loops[0].iter)}' if loops else 'no loop') + (f'; guarded by {" && ".join(g)[:120]}' if g else '') + (f'; {type(early[0]).__name__.lower()} at line {early[0].lineno}' if early else ''),
+                  key=f'oob-send-all|{cls}')
+        mids = [v for d in ast.walk(so) if isinstance(d, ast.Dict) for k, v in zip(d.keys, d.values) if k is not None and q.const_str(k) == 'mid']
+        rr.ob(f'{cls}.send_oob: the envelope carries the out-of-band message id', len(mids) == 1 and U(mids[0]) == 'MSG_ID_OOB', zmod, so, witness=U(mids[0]) if mids else 'no mid key', key=f'oob-send-mid|{cls}')
+    # Sender.send_push (the request channel the receiver announces on) writes unless the channel has no request socket at all
+    _, sp = repo.find(f'{Z}::ZMQReceiver.Sender.send_push')
+    for c in [c for c in q.calls_in(sp) if U(c.func) == 'self.push.send_multipart']:
+        g = [('' if pol else 'not ') + U(t) for t, pol in q.guards_of(c, stop=sp)]
+        rr.ob('Sender.send_push writes to the request socket whenever the channel has one (ephemeral < 2), whatever the connection state', g == ['self.ephemeral < 2'], zmod, c, witness=' && '.join(g)[:160] or 'unguarded', key='send-push-guard')
     # the callback is the constructor argument (defaulting to a no-op), stored once
     for cls in ('ZMQSender', 'ZMQReceiver'):
         _, init = repo.find(f'{Z}::{cls}.__init__')
